@@ -940,7 +940,15 @@ def _r6(repo, L, m, ba):
     okw = False
     if wa is not None:
         loops = [n for n in walk_shallow(wa.node) if isinstance(n, ast.For)]
-        okw = len(loops) == 1 and norm(loops[0].iter).endswith(".values()") and not any(isinstance(x, ast.If | ast.Continue | ast.Break) for x in walk_shallow(loops[0])) and any(dotted(c.func) == "write_assembly" for c in repo.calls_in(wa))
+        okw = len(loops) == 1 and norm(loops[0].iter).endswith(".values()") and isinstance(loops[0].target, ast.Name)
+        if okw:
+            lv_ = loops[0].target.id
+            for pth in PathEnum((0,), exc_edges=False).block(loops[0].body):
+                k_ = len([c for _, c in path_calls(pth, lambda c: dotted(c.func) == "write_assembly" and any(is_name(a, lv_) for a in c.args))])
+                if pth.status == "raise":
+                    continue
+                if pth.status != "fall" or k_ != 1:
+                    okw = False
     L.check(okw, "R6", "write_assemblies", "every output assembly is written", "not every output assembly is written to a file", wa.loc() if wa else "")
     na = repo.try_func("name_assemblies", "pretext_to_asm")
     ma = repo.try_func("merge_assemblies", "pretext_to_asm")
